@@ -366,7 +366,7 @@ class Verifier(Dyn):
             ob.result = "discharged"
         elif r == z3.sat:
             ob.result = "failed"
-            ob.model = self.extract_model(s.model(), ob)
+            ob.model = self.extract_model(self.small_model(s, ob), ob)
         else:
             ob.reason = s.reason_unknown()
             r2 = self.try_cvc5(s, min(timeout_ms, 8000))
@@ -387,6 +387,35 @@ class Verifier(Dyn):
         ob.time = time.time() - t0
         ob.smt_head = None
         return ob
+
+    def small_model(self, s, ob):
+        """Prefer a counter-model with short sequences (replayable): re-check with every sequence length bounded by 3; fall back to
+        the solver's first model."""
+        m0 = s.model()
+        try:
+            lens, seen, stack = [], set(), list(ob.pc) + [ob.goal]
+            while stack:
+                t = stack.pop()
+                if t.get_id() in seen:
+                    continue
+                seen.add(t.get_id())
+                if z3.is_app(t):
+                    nm = t.decl().name()
+                    if nm == "seq_len" or (t.num_args() == 0 and z3.is_int(t) and (nm.endswith("#len") or nm.endswith("#count"))):
+                        lens.append(t)
+                    stack.extend(t.children())
+            if not lens:
+                return m0
+            s.push()
+            s.set("timeout", 3000)
+            for t in lens[:60]:
+                s.add(t <= 3)
+            r = s.check()
+            m = s.model() if r == z3.sat else m0
+            s.pop()
+            return m
+        except Exception:
+            return m0
 
     def split_discharge(self, ob, timeout_ms):
         """Case split on the Boolean structure of the query (optional-present flags, regex 'taken' flags): string solvers that
@@ -470,7 +499,10 @@ class Verifier(Dyn):
         for k, terms in ob.ground.items():
             ground_vals[k] = [m.eval(t, model_completion=True) for t in terms]
         self._model = m
+        self._objbudget = 150      # object values rendered per counter-model (nested views are cut off beyond it)
+        self._ground_strings = list(ob.ground.get("String", []))
         for name, t in self.inputs.items():
+            self._objbudget = 60       # per input
             try:
                 if z3.is_array(t):
                     dom = str(t.sort().domain())
@@ -506,6 +538,9 @@ class Verifier(Dyn):
         ev = lambda t: m.eval(t, model_completion=True)
         if z3.is_true(ev(o == PyNone)):
             return None
+        self._objbudget = getattr(self, "_objbudget", 150) - 1
+        if self._objbudget < 0:
+            return {"$obj": str(ev(o)), "kind": 0, "cut": True}
         k = ev(kind_of(o))
         k = k.as_long() if z3.is_int_value(k) else 0
         d = {"$obj": str(ev(o)), "kind": k}
@@ -521,11 +556,34 @@ class Verifier(Dyn):
             for cname in sorted(self.cls_done):
                 if z3.is_true(ev(self.class_pred(cname)(o))):
                     d.setdefault("classes", []).append(cname)
+            names_ = {dd.name() for dd in m.decls()}
+            depth0 = getattr(self, "_objdepth", 0)
+            if depth0 < 2:
+                self._objdepth = depth0 + 1
+                try:
+                    if "seq_len" in names_:
+                        ln = ev(z3.Function("seq_len", ObjSort, z3.IntSort())(o))
+                        if z3.is_int_value(ln) and 0 <= ln.as_long() <= 8:
+                            item = z3.Function("seq_item", ObjSort, z3.IntSort(), ObjSort)
+                            d["seq"] = [self.pyval(ev(item(o, z3.IntVal(i)))) for i in range(ln.as_long())]
+                    if "dict_has" in names_:
+                        has = z3.Function("dict_has", ObjSort, ObjSort, z3.BoolSort())
+                        val = z3.Function("dict_val", ObjSort, ObjSort, ObjSort)
+                        bs = z3.Function("box_str", z3.StringSort(), ObjSort)
+                        ent = []
+                        for kterm in getattr(self, "_ground_strings", [])[:24]:
+                            kv = ev(kterm)
+                            if z3.is_string_value(kv) and z3.is_true(ev(has(o, bs(kv)))):
+                                ent.append([kv.as_string(), self.pyval(ev(val(o, bs(kv))))])
+                        if ent:
+                            d["map"] = ent
+                finally:
+                    self._objdepth = depth0
             for meth, ufn in getattr(self.reg, "obj_uf_methods", {}).items():
                 fn_, argtys, resty = self.reg.ufs[ufn]
                 d.setdefault("methods", {})[meth] = self.pyval(ev(fn_(o)))
             depth = getattr(self, "_objdepth", 0)
-            if depth < 3:
+            if depth < 2:
                 self._objdepth = depth + 1
                 try:
                     names = {dd.name() for dd in m.decls()}
@@ -551,7 +609,7 @@ class Verifier(Dyn):
                 "specs": {n: [ps, body] for n, (ps, body) in self.reg.specs.items()},
                 "kind": self.fi.kind, "cls": self.fi.cls, "module": self.fi.module, "name": self.fi.node.name,
                 "params": [a.arg for a in self.fi.node.args.posonlyargs + self.fi.node.args.args] + [a.arg for a in self.fi.node.args.kwonlyargs],
-                "requires": list(c.requires), "class_state": [[k[0], k[1], g] for k, g in getattr(self.reg, "class_state", {}).items()]}
+                "requires": list(c.requires), "attr_types": {a: repr(t[0]) for a, t in self.reg.attrs.items()}, "class_state": [[k[0], k[1], g] for k, g in getattr(self.reg, "class_state", {}).items()]}
 
     def run(self, timeout_ms=10000):
         """Explore and discharge.  When the function's loop structure has drifted from the contract, iterate: candidate invariant
